@@ -36,6 +36,18 @@ class TooManyPaths(Exception):
     pass
 
 
+def subst_args(t, mapping):
+    """replace ('arg', i) leaves of a term by mapping[i]"""
+    if isinstance(t, tuple):
+        if len(t) == 2 and t[0] == "arg" and isinstance(t[1], int):
+            return mapping.get(t[1], t)
+        return tuple(subst_args(x, mapping) for x in t)
+    return t
+
+
+_inline_cache = {}
+
+
 class Sym:
     def __init__(self, prog, fpath):
         self.prog = prog
@@ -238,6 +250,31 @@ class Sym:
                         name = ("indirect", self.operand(env, c["indirect"]))
                     args = tuple(self.operand(env, a) for a in t["args"])
                     term = ("call", name, args, (b, t["ln"]))
+                    # a private helper that did not exist in the reviewed tree (extracted by a refactoring) is looked through:
+                    # the caller's paths fork over the helper's return paths, with the helper's conditions, calls and result substituted
+                    if isinstance(name, str) and t["target"] is not None and getattr(self, "_inline_depth", 0) < 2:
+                        import rules
+                        if rules.is_new_helper(self.prog, name):
+                            key = (self.prog.config, name)
+                            if key not in _inline_cache:
+                                sub = Sym(self.prog, name)
+                                sub._inline_depth = getattr(self, "_inline_depth", 0) + 1
+                                try:
+                                    _inline_cache[key] = [sp for sp in sub.paths(max_paths=48) if sp.end[0] == "return"]
+                                except TooManyPaths:
+                                    _inline_cache[key] = None
+                            sps = _inline_cache[key]
+                            if sps:
+                                mapping = {i + 1: a for i, a in enumerate(args)}
+                                for sp in sps:
+                                    p2 = Path()
+                                    p2.conds = list(path.conds) + [(c[0], subst_args(c[1], mapping), c[2], ("inl", name, c[3])) for c in sp.conds]
+                                    p2.calls = list(path.calls) + [subst_args(c, mapping) for c in sp.calls]
+                                    p2.blocks = list(path.blocks)
+                                    env2 = dict(env)
+                                    self.assign(env2, t["dest"], subst_args(sp.ret, mapping))
+                                    walk(t["target"], env2, p2, onpath)
+                                return
                     path.calls.append(term)
                     self.assign(env, t["dest"], term)
                     if t["target"] is None:
